@@ -212,6 +212,8 @@ class Transformer(ast.NodeTransformer):
         self.while_specs = set(while_specs)
         self.loop_stack: list[tuple[int, bool]] = []
         self.unsupported: list[str] = []
+        self.has_yield = False
+        self.gen_funcs: list[str] = []
 
     # -- function headers
     def _strip_args(self, a: ast.arguments):
@@ -224,11 +226,23 @@ class Transformer(ast.NodeTransformer):
 
     def visit_FunctionDef(self, node):
         saved = self.loop_stack
+        saved_y = self.has_yield
         self.loop_stack = []
+        self.has_yield = False
         self.generic_visit(node)
         self.loop_stack = saved
         self._strip_args(node.args)
-        new = ast.FunctionDef(name=node.name, args=node.args, body=node.body, decorator_list=[],
+        body = node.body
+        if self.has_yield:
+            # a generator: the transformed function runs eagerly and returns the yielded values
+            self.gen_funcs.append(node.name)
+            begin = ast.Assign(targets=[ast.Name(id="__gen", ctx=ast.Store())], value=_call("gen_begin"))
+            end = ast.Return(value=_call("gen_end", ast.Name(id="__gen", ctx=ast.Load())))
+            body = [begin, ast.Try(body=body, handlers=[], orelse=[],
+                                   finalbody=[ast.Expr(value=_call("gen_leave", ast.Name(id="__gen", ctx=ast.Load())))]),
+                    end]
+        self.has_yield = saved_y
+        new = ast.FunctionDef(name=node.name, args=node.args, body=body, decorator_list=[],
                               returns=None, type_comment=None, type_params=[])
         return ast.copy_location(new, node)
 
@@ -256,10 +270,14 @@ class Transformer(ast.NodeTransformer):
         return ast.copy_location(ast.With(items=items, body=node.body), node)
 
     def visit_Yield(self, node):
-        self.unsupported.append(f"yield at line {node.lineno}")
-        return node
+        self.generic_visit(node)
+        self.has_yield = True
+        return ast.copy_location(_call("yield_", node.value if node.value is not None else _const(None)), node)
 
-    visit_YieldFrom = visit_Yield
+    def visit_YieldFrom(self, node):
+        self.generic_visit(node)
+        self.has_yield = True
+        return ast.copy_location(_call("yield_from", node.value), node)
 
     # -- operators
     def visit_Compare(self, node):
